@@ -648,3 +648,13 @@ V("c20e-slice-bound-truthiness", "C20", {"rule": "C20e", "contains": "truth-valu
   (EXPR, "                stop = self._eval(sl.upper, x) if sl.upper else None\n", "                stop = (self._eval(sl.upper, x) or None) if sl.upper else None\n"))
 V("c20e-preserving-is-not-none-test", "C20", "silent",
   (EXPR, "                stop = self._eval(sl.upper, x) if sl.upper else None\n", "                stop = self._eval(sl.upper, x) if sl.upper is not None else None\n"))
+V("c14d-getter-applies-inverse-map", "C14", {"rule": "C14d", "contains": "conversion-from-wrong-ordering"},
+  (GST, "        indices = xxpp_to_xpxp_indices(self.d)\n        return self.xxpp_covariance_matrix[np.ix_(indices, indices)]", "        indices = xpxp_to_xxpp_indices(self.d)\n        return self.xxpp_covariance_matrix[np.ix_(indices, indices)]"))
+V("c14d-symplectic-form-of-other-ordering", "C14", {"rule": "C14d", "contains": "mixed-orderings"},
+  (GST, "        second_order_moments = cov_xxpp / 2 + 0.5j * hbar * xp_symplectic_form(d)", "        second_order_moments = cov_xxpp / 2 + 0.5j * hbar * symplectic_form(d)"))
+V("c14d-preserving-renamed-index-variable", "C14", "silent",
+  (GST, "        indices = xxpp_to_xpxp_indices(self.d)\n        return self.xxpp_covariance_matrix[np.ix_(indices, indices)]", "        perm = xxpp_to_xpxp_indices(self.d)\n        return self.xxpp_covariance_matrix[np.ix_(perm, perm)]"))
+V("c20f-condition-compared-with-true", "C20", {"rule": "C20f", "contains": "truthiness-only"},
+  (INSTR, "            return self._condition(outcomes)\n", "            return self._condition(outcomes) is True\n"))
+V("c20f-preserving-bool-wrapper", "C20", "silent",
+  (INSTR, "            return self._condition(outcomes)\n", "            return bool(self._condition(outcomes))\n"))
